@@ -341,6 +341,15 @@ class C14(F.Spec):
                 return p + self.cstr(rest) if b"\0" in rest else p
             m2 = bytes.fromhex(me["m2"])[:E - 1]
             pb = full(before)
+            # the overflow part of a long password is a text setting of its own, stored behind the terminator of the address: what
+            # stands there after the form was saved is terminated inside the field (readers look for the terminator there)
+            mail_a = self.fld(after, "email")
+            if b"\0" in mail_a[:E - 2] and b"\0" not in self.fld(after, "pwd"):
+                rest = mail_a[mail_a.index(b"\0") + 1:]
+                if b"\0" not in rest:
+                    fs.append(F.Finding("password-overflow-part-not-terminated", "after a form without a password (new e-mail of %d characters, "
+                                        "stored password of %d) the %d bytes behind the address's terminator hold no terminator: the "
+                                        "overflow part of the password runs to the end of the field" % (len(m2), len(pb), len(rest))))
             if len(m2) + 1 + max(0, len(pb) - L) + 1 <= E and full(after) != pb:
                 fs.append(F.Finding("stored-password-not-kept", "a form without a password changed the stored %d-character password "
                                     "(new e-mail of %d characters: there was room)" % (len(pb), len(m2))))
